@@ -48,3 +48,16 @@ def check_exec():
             got = ["REQUEST-ERROR"]
         if json.loads(json.dumps(got)) != e["expect"]:
             raise HarnessError("reference executor disagrees with golden on %r" % e["text"][:100])
+
+
+def check_validate():
+    from vlib.gen import schema as GS
+    from vlib.ref import parser as R, validate as RV
+    with open(os.path.join(HERE, "goldens_validate.json")) as f:
+        g = json.load(f)
+    for e in g["cases"]:
+        spec = GS.Spec(e["spec"])
+        p = R.ref_parse(e["text"], "doc", False, False)
+        got = sorted({r for r, _ in RV.problems(spec, p[1])}) if p[0] == "TREE" else ["SYNTAX"]
+        if got != e["expect"]:
+            raise HarnessError("reference validator disagrees with golden on %r: %r != %r" % (e["text"][:100], got, e["expect"]))
